@@ -107,7 +107,7 @@ def run(ctx):
     cov = dict(info)
     cov["trusted_base"] = vlib.STD_TRUSTED + [
         "Section hypothesis of Properties/C17.v: every `range` over a Go map is some permutation of its entries (shuffles_ok); nothing else is assumed about iteration order",
-        "content the handlers only compare (addresses, meta, ports, weights, proxy config, check output/definition) is one number per row: equal number <-> IsSame on that content (harness hash, 48 bits of SHA-256)",
+        "content the handlers only compare (addresses, meta, ports, weights, proxy config, check output/definition) is one number per row: equal number <-> IsSame on that content (harness hash, 48 bits of SHA-256 of the JSON form; JSON drops the nil/empty distinction of omitempty containers, so every peer row of a generated state is produced by the handler itself, as in production, and local rows are never compared with received ones)",
         "names are lower-case ASCII without NUL (memdb lower-cases every key component; strings.EqualFold is then plain equality); the peer name is not the local keyword \"~\"; service weights present and valid; no prepared-query upstreams",
         "modelled, not verified: go-memdb (unique primary index = replace on insert, transaction abort on error), msgpack/protobuf round trips of the requests, the index table / watch channels, virtual-IP allocation (compared with the model only with the virtual-ips flag off; with the flag on the Go oracle projects the stamped address away), gateway-services (no gateway config entries in generated states), ACLs, the gRPC stream and its ACK/NACK framing, Enterprise partitions/namespaces",
         "projected away by the frame oracle (shared by design): un-prefixed rows of the index table (table-wide watermarks over all peers), the free-virtual-ips allocator table",
@@ -180,6 +180,28 @@ def run(ctx):
                        "errmsg": c.get("errmsg"), "flags": c.get("flags"), "entry": c.get("entry"),
                        "got_svcs": c.get("got_svcs"), "got_chains": c.get("got_chains"),
                        "replay": c.get("replay"), "replay_cmd": "build/bin/peering -replay <this file>"})
+    extra_runs = 0
+    if mism and not new_fail:
+        # the model and the code disagree but the oracle is silent: look harder for a failing
+        # input (fresh seeds, oracle only) before reporting the broken correspondence
+        for k in range(1, 4):
+            out2 = os.path.join(ctx.workdir, "extra_%d.jsonl" % k)
+            rc2, _ = vlib.sh([binp, "-seed", str(ctx.seed * 1000 + k), "-tier", "quick", "-out", out2], timeout=3000)
+            if rc2 != 0:
+                continue
+            extra_runs += 1
+            for line in open(out2):
+                c2 = json.loads(line)
+                if c2["oracle"] and not vlib.match_known(PROP, c2.get("sig") or {}):
+                    new_fail.append(c2)
+            if new_fail:
+                break
+        for c2 in new_fail[:3]:
+            ctx.violation({"kind": "oracle", "found_by": "extended search after a correspondence mismatch",
+                           "reason": c2["oracle"][:4000], "signature": c2.get("sig"), "gen": c2["gen"], "peer": c2["peer"],
+                           "service": c2.get("service"), "export": c2.get("export"), "names": c2.get("names"),
+                           "before": c2.get("before"), "after": c2.get("after"), "ops": c2.get("ops"), "err": c2["err"],
+                           "replay": c2.get("replay"), "replay_cmd": "build/bin/peering -replay <this file>"})
     if mism and not new_fail:
         c = mism[0]
         ctx.violation({"kind": "correspondence", "theorem": "Run.C17.check (model handle / exported_services = implementation)",
@@ -201,6 +223,7 @@ def run(ctx):
         "rule": "one case = one event processed by the real handler on a real store (or one ExportedServicesForPeer call); distinct_nontrivial = cases with a distinct (prior catalog, event) pair that produced at least one Backend call (import) or any export case",
         "traces_validated_against_impl": len(coq_cases),
         "model_mismatches": len(mism),
+        "extended_search_runs": extra_runs,
         "oracle_failures": len(oracle_fail),
         "oracle_failures_unknown": len(new_fail),
         "known_finding_hits": dict(known_hits),
